@@ -10,9 +10,10 @@
    reach a free process parameter through a function body; for each there is a theorem that holds once the
    corresponding flag of the configuration is set, and a witness that is accepted today. -/
 import UtapModel.Lemmas.Effect
+import UtapModel.Lemmas.TypeWalk
 import UtapModel.Gen.EffectGen
 namespace UtapModel.C13
-open UtapModel UtapModel.Effect UtapModel.EffectGen
+open UtapModel UtapModel.Effect UtapModel.EffectGen UtapModel.TypeWalk
 
 /-! ## today's tables -/
 
@@ -195,5 +196,41 @@ theorem C13_argument_twin : ∀ ref constant : Bool, argRejects genCfg ref const
 /-- the computed exception set of the current source contains nothing but the three listed shapes -/
 theorem C13_exceptions_today : ∀ x ∈ c13Exceptions genCfg,
     x ∈ ["random:nested-operand", "random:via-function-body", "free-param:array-size-via-function"] := by decide
+
+/-! ## sizes and bounds hang off types: the walk that brings them to the checks (Model/TypeWalk.lean) -/
+
+/-- today's `TypeChecker::checkType`: every wrapping kind (typedef name, prefix, reference) passes its child on, a range
+    tests both bounds, an array hands on its size and its element type, a record all its fields -/
+theorem C13_type_walk_complete : genWalk.Complete := by decide
+
+/-- Every array size, range bound and scalar-set size anywhere in a type -- behind typedef names, in any dimension of an
+    array, in a row type that is the element type of another array, in a field of a record, to any depth -- is handed to
+    `checkExpression` and `isCompileTimeComputable` when `checkType` is called on the type. -/
+theorem C13_type_bounds_checked (t : WTy) (h : t.wellKinded = true) : ∀ x ∈ t.exprs, x ∈ visits genWalk t :=
+  visits_complete genWalk C13_type_walk_complete t h
+
+/-- … and `checkType` is called on the type of every variable, select binder, iteration binder, block symbol (parameters
+    and locals of functions) and on the type of the binder of `forall`, `exists` and `sum` -- the binder's range is no
+    operand of the quantified expression, so this call is the only thing that brings its bounds to the checks. -/
+theorem C13_type_sites_complete : ∀ s ∈ requiredSites, s ∈ genWalk.sites := by decide
+
+/-- A variable is found by the frame walk of `Document::accept` (hence by `visitVariable`: its type and its initialiser are
+    checked) whatever base type it has … -/
+theorem C13_variable_kinds_visited : ∀ k ∈ variableKinds, k ∈ genWalk.variableBaseKinds := by decide
+
+/-- … and however array levels, typedef names and prefixes alternate above that base type (`row_t m[2]` with
+    `typedef int row_t[n]`): `strip_array()` returns the base type itself, never an array and never a wrapped type. -/
+theorem C13_strip_array_reaches_base (stripped : Kind → Bool) (t : WTy) :
+    isArrayType stripped (stripArray stripped t) = false ∧ strip stripped (stripArray stripped t) = stripArray stripped t :=
+  ⟨stripArray_not_array stripped t, stripArray_stripped stripped t⟩
+
+/-- satisfiable: `typedef int row_t[e1]; const row_t m[e2];` with `int[e3, e4]` cells -- all four expressions are visited,
+    and the variable is classified as an INT variable -/
+def demoMatrix : WTy :=
+  .array (.range 0 2) (.wrap .kCONSTANT (.wrap .kLABEL (.array (.range 0 1) (.wrap .kLABEL (.range 3 4)))))
+theorem C13_type_walk_demo : visits genWalk demoMatrix = [0, 2, 0, 1, 3, 4] := by decide
+theorem C13_strip_array_demo :
+    stripArray (fun k => k == .kLABEL || k == .kCONSTANT) (.wrap .kLABEL (.array (.range 0 2) (.wrap .kLABEL (.array (.range 0 1) (.leaf .kINT)))))
+      = .leaf .kINT := by simp [stripArray]
 
 end UtapModel.C13
